@@ -46,6 +46,93 @@ def planted_signature(rec):
                 slot, L.describe_obs(o), L.describe_obs(rec["RefObs"])))
 
 
+def _expected_titles(files, main, iargs):
+    """The documented search: next to the including file, then the -I
+    directories in order, the current directory last unless -I names it."""
+    import os
+    ip = list(iargs)
+    if "." not in ip:
+        ip.append(".")
+
+    def join(d, name):
+        return os.path.normpath(d + "/" + name)
+    start = None
+    for d in ip:
+        if join(d, main) in files:
+            start = join(d, main)
+            break
+    if start is None:
+        return None
+    out = []
+
+    def rec(f, depth):
+        for line in files[f].split("\n"):
+            line = line.strip()
+            if line.startswith("title "):
+                out.append(line[6:].strip())
+            elif line.startswith("include "):
+                if depth >= 10:
+                    return False
+                name = line[8:]
+                for d in [os.path.dirname(f) or "."] + ip:
+                    c = join(d, name)
+                    if c in files:
+                        if not rec(c, depth + 1):
+                            return False
+                        break
+                else:
+                    return False
+        return True
+    return out if rec(start, 1) else None
+
+
+def cli_include_stage():
+    """Include search order through the real command line (initArgs adds the
+    current directory to the -I list): cwd differs from the main file's
+    directory, the name exists in several places with different titles."""
+    import os
+    import shutil
+    import tempfile
+    res = {"ran": 0, "agree": 0, "bad": []}
+    try:
+        exe = vlib.build_bins(["shakespeare"])["shakespeare"]
+    except vlib.BuildError:
+        return res
+    base = {"conf/m.cfg": "title m.0\ninclude x.cfg\ninclude y.cfg\ninclude /z.cfg\ntitle m.4\n",
+            "lib/x.cfg": "title libx\n", "x.cfg": "title cwdx\n", "lib2/x.cfg": "title lib2x\n",
+            "y.cfg": "title cwdy\n", "lib/z.cfg": "title libz\n", "z.cfg": "title cwdz\n"}
+    trees = [("no-sibling", base),
+             ("sibling", dict(base, **{"conf/x.cfg": "title confx\n"})),
+             ("nested", dict(base, **{"conf/m.cfg": "include sub/a.cfg\n", "conf/sub/a.cfg": "title a.0\ninclude x.cfg\ninclude z.cfg\n"})),
+             ("only-lib2", {"conf/m.cfg": "include x.cfg\n", "lib2/x.cfg": "title lib2x\n"})]
+    argsets = [["lib"], ["lib", "."], [".", "lib"], [], ["lib2", "lib"], ["lib", "lib2"], ["lib2"]]
+    env = dict(vlib.GOENV, PATH="/nonexistent")
+    for tname, files in trees:
+        d = tempfile.mkdtemp(prefix="shk-c20-cli-")
+        try:
+            for n, t in files.items():
+                os.makedirs(os.path.dirname(os.path.join(d, n)) or d, exist_ok=True)
+                with open(os.path.join(d, n), "w") as f:
+                    f.write(t)
+            for ia in argsets:
+                args = [exe, "-n", "-p"] + [x for i in ia for x in ("-I", i)] + ["conf/m.cfg"]
+                rc, o = vlib.run(args, timeout=30, cwd=d, env=env, input="")
+                res["ran"] += 1
+                got = [l[6:].strip() for l in o.split("\n") if l.startswith("title ")]
+                exp = _expected_titles(files, "conf/m.cfg", ia)
+                ok = (exp is None and rc != 0) or (exp is not None and rc == 0 and got == exp)
+                if "panic:" in o or "fatal error:" in o:
+                    ok = False
+                if ok:
+                    res["agree"] += 1
+                else:
+                    res["bad"].append({"tree": tname, "files": files, "args": args[1:], "cwd": "the root of the tree", "expected_titles": exp,
+                                       "observed_titles": got, "exit": rc, "output": o[:1500]})
+        finally:
+            shutil.rmtree(d, ignore_errors=True)
+    return res
+
+
 def run(tier, seed):
     res = vlib.Result(PID, tier, seed, level="proof")
     res.assumptions = [
@@ -75,7 +162,7 @@ def run(tier, seed):
         "evaluations": summary["evaluations"],
         "distinct_nontrivial": summary["distinct_nontrivial"],
         "exhaustive": False,
-        "rule": "(1) EXHAUSTIVE over the template's 46 fields (15 the manual lists as substituted, 31 it does not: actor names after `watches` / `entails for` / in cast lines, member, signal, variable, action, mood names, collection mode, `expects like` target, commands, patterns, labels ...) x 7 definition modes {-D, default, both, undefined, two defaults, two -D, another parameter whose value is ~p~}: ~p~ planted in one field of a complete valid configuration (title, attention, author, parameter name/value, role name, extends, action name/command, spotlight, cleanup, signal name/pattern, cast role, multiplicity, with-environment, actor name, tempo, every-role of scene and watch, scene action, mood, storyline, edit and repeat-from regexps, repeat count and time, member / signal / variable names, label, the four expression kinds, modality, interpretation target, include name), each run twice (planted, reference); plus, for the four expression fields, 9-13 texts with the reference glued to its neighbours (after <= >= == != ( + -, before ) *, two references back to back) under -D / default / undefined; plus, for the 15 substituted fields, 2-8 further VALUES of p each (keywords of the field such as `unconstrained` / `always`, boundary numbers, other spellings) under -D and under a default, compared with the same text with the value written out; (2) random -D lists x `parameter` clauses x strings through the real parseDefines / parseCfg / preprocReplace, names and values containing ~, ~p~, =, empty; one quarter through a `title` clause of the whole parser; (3) include graphs (sequences in which a file of another directory has included something before a later clause elsewhere names a file that exists only there / also in a later -I directory — the search path is per clause; 10/12/25 sequential includes at one level, combs of depth 3-4 with 4 includes per level, a percent sign in file and directory names, chains to depth 12, diamonds, self/mutual/3-cycles, directories, missing, -I only, sibling shadowing, -I order, sibling of the includer not of the main file, `..`, names through parameters) files with and without a final newline (last line a clause, `end`, an include), with the reading order predicted by an independent recursive expander AND compared with the same text with every included file written in place of its clause (include = splice); corpus first. distinct_nontrivial = distinct file sets of at least 8 bytes + preprocessing cases.",
+        "rule": "(1) EXHAUSTIVE over the template's 46 fields (15 the manual lists as substituted, 31 it does not: actor names after `watches` / `entails for` / in cast lines, member, signal, variable, action, mood names, collection mode, `expects like` target, commands, patterns, labels ...) x 7 definition modes {-D, default, both, undefined, two defaults, two -D, another parameter whose value is ~p~}: ~p~ planted in one field of a complete valid configuration (title, attention, author, parameter name/value, role name, extends, action name/command, spotlight, cleanup, signal name/pattern, cast role, multiplicity, with-environment, actor name, tempo, every-role of scene and watch, scene action, mood, storyline, edit and repeat-from regexps, repeat count and time, member / signal / variable names, label, the four expression kinds, modality, interpretation target, include name), each run twice (planted, reference); plus, for the four expression fields, 9-13 texts with the reference glued to its neighbours (after <= >= == != ( + -, before ) *, two references back to back) under -D / default / undefined; plus, for the 15 substituted fields, 2-8 further VALUES of p each (keywords of the field such as `unconstrained` / `always`, boundary numbers, other spellings) under -D and under a default, compared with the same text with the value written out; (2) random -D lists x `parameter` clauses x strings through the real parseDefines / parseCfg / preprocReplace, names and values containing ~, ~p~, =, empty; one quarter through a `title` clause of the whole parser; (4) the include search through the real command line: 4 directory trees x 7 -I lists, run from a directory that is not the main file's; (3) include graphs (names starting with `/` — appended to every search directory like any other name, decoy at the absolute path —; sequences in which a file of another directory has included something before a later clause elsewhere names a file that exists only there / also in a later -I directory — the search path is per clause; 10/12/25 sequential includes at one level, combs of depth 3-4 with 4 includes per level, a percent sign in file and directory names, chains to depth 12, diamonds, self/mutual/3-cycles, directories, missing, -I only, sibling shadowing, -I order, sibling of the includer not of the main file, `..`, names through parameters) files with and without a final newline (last line a clause, `end`, an include), with the reading order predicted by an independent recursive expander AND compared with the same text with every included file written in place of its clause (include = splice); corpus first. distinct_nontrivial = distinct file sets of at least 8 bytes + preprocessing cases.",
         "samples": summary["samples"],
         "distribution": {k: summary[k] for k in ("counts", "outcomes", "by_stream", "error_classes", "faults", "graph_shapes", "clause_kinds",
                                                   "max_include_depth_reached", "skipped_escaping_root")},
@@ -138,6 +225,13 @@ def run(tier, seed):
             what = "%s: observed %s" % (what, L.describe_obs(obs))
         report(sig, what, {"kind": "failing-input", "input": L.short_input(inp), "observed": obs,
                            "expected": {k: inp.get(k) for k in ("HasExpect", "ExpectPos", "ExpectChain", "ExpectCls")}})
+    cli = cli_include_stage()
+    res.coverage["cli_include_search"] = {"ran": cli["ran"], "agree": cli["agree"],
+                                          "what": "4 directory trees x 7 -I lists through `shakespeare -n -p -I ... conf/m.cfg` run from the tree's root (so the implicit current directory added by initArgs matters): titles read must be those of sibling first, then -I in order, then the current directory"}
+    for b in cli["bad"][:1]:
+        report("cli-include-search-order", "through the command line (%s, run from the root of the %s tree) the titles read are %s (exit %d) where the documented search order gives %s" % (
+            " ".join(b["args"]), b["tree"], b["observed_titles"], b["exit"], b["expected_titles"]),
+            {"kind": "failing-input", "input": b, "replay": "create the files, cd to their root, run shakespeare with the args"})
     dis = {"Mparse": L.global_indices(vals["Mparse"], off["parse"]), "Mpp": L.global_indices(vals["Mpp"], off["pp"]),
            "Mgraph": L.global_indices(vals["Mgraph"], off["graph"])}
     if not res.violations and not res.known:
